@@ -97,6 +97,15 @@ func (propC19) Gen(seed uint64, tier string, idx int) *Plan {
 		p.Panics = map[string]int{"proxy.attempt": pickS(r, []int{30, 100, 300})}
 		p.Sub += "/panics"
 	}
+	if fault && r.Chance(250) {
+		// a panic while a translated stream is being rewritten (handleStreamingPanic cleans up and re-panics,
+		// net/http ends the connection): the attempt feeding the pipe must still be counted and released
+		if p.Panics == nil {
+			p.Panics = map[string]int{}
+		}
+		p.Panics["translate.stream"] = pickS(r, []int{30, 150, 500})
+		p.Sub += "/tpanics"
+	}
 	stmtYields(r, p, 300)
 	p.Deadline = 60 * time.Second
 	p.Settle = 4 * time.Second // read time-outs and disconnect grace periods must have run out
@@ -310,13 +319,19 @@ func (propC19) Check(r *Run) []Violation {
 			class += "/fewer-recorded"
 		case successRecs-fullOK <= abortAnswered:
 			class += "/client-abort-counted-as-success"
+		case successRecs-fullOK <= abortAnswered+fl["panic.translate.stream"]:
+			// each injected panic in the stream rewriter ends exactly one translated request, whose attempt
+			// may already have relayed the whole 2xx answer into the pipe and been counted
+			class += "/rewriter-panic-counted-as-success"
 		default:
 			class += "/more-recorded"
 		}
-		add(class, "%d success records, %d responses delivered in full with 2xx (%d requests were abandoned by the client after a backend had started a 2xx answer); non-success clients: %s", successRecs, fullOK, abortAnswered, strings.Join(kinds, " "))
+		add(class, "%d success records, %d responses delivered in full with 2xx (%d requests were abandoned by the client after a backend had started a 2xx answer, %d translated streams were ended by an injected panic in the rewriter); non-success clients: %s", successRecs, fullOK, abortAnswered, fl["panic.translate.stream"], strings.Join(kinds, " "))
 	}
 	if anth > 0 {
-		if trTotal > anth || anth-trTotal > panics {
+		// a handler that was made to panic (attempt on its own goroutine stack, or the stream rewriter) never
+		// reaches its translator record; nothing else may go unrecorded
+		if trTotal > anth || anth-trTotal > panics+fl["panic.translate.stream"] {
 			add("C19/translator-requests-not-recorded-once", "%d anthropic requests, %d translator events", anth, trTotal)
 		}
 		if trSuccess > anthOK {
